@@ -1598,12 +1598,21 @@ impl StreamingQueueCompressor {
             if need_sync {
                 // Reached synchronization point (every 50 contigs GLOBALLY)
                 // C++ AGC does: cnt_contigs_in_sample = 0; --sample_priority;
-                if let Some(priority) = priorities.get_mut(&sample_name) {
-                    *priority -= 1;
-                }
-
-                // Get the NEW priority (after decrement) for sync tokens
-                let new_priority = *priorities.get(&sample_name).unwrap();
+                // C++ AGC has ONE decreasing priority: the tokens must sort below every contig
+                // pushed so far and above every contig pushed afterwards, whichever sample it
+                // belongs to - otherwise which contigs are in the batch when the workers reach
+                // the tokens depends on thread timing. Take the token priority and the new
+                // contig priority from the global counter and restart the per-sample map, so
+                // that later samples also get priorities below the tokens.
+                let (token_priority, new_priority) = {
+                    let mut next_p = self.next_priority.lock().unwrap();
+                    let token_priority = *next_p;
+                    let new_priority = *next_p - 1;
+                    *next_p -= 2;
+                    (token_priority, new_priority)
+                };
+                priorities.clear();
+                priorities.insert(sample_name.clone(), new_priority);
 
                 // Drop locks before inserting sync tokens to avoid deadlock
                 drop(priorities);
@@ -1624,10 +1633,9 @@ impl StreamingQueueCompressor {
                         sample_name: sample_name.clone(),
                         contig_name: String::from("<SYNC>"),
                         data: Vec::new(),
-                        // Use large priority boost to ensure sync tokens are processed BEFORE any contigs
-                        // With +1, contigs with same priority but higher cost were being popped first
-                        // This caused barrier deadlock when some workers exited before others got sync tokens
-                        sample_priority: new_priority + 1_000_000,
+                        // Strictly between the contigs of the batch the tokens close (higher
+                        // priorities) and all later contigs (lower priorities); no i32 overflow
+                        sample_priority: token_priority,
                         cost: 0,
                         sequence,
                         is_sync_token: true,
